@@ -11,7 +11,7 @@ pub fn info() -> PropertyInfo {
     PropertyInfo {
         id: "C12",
         level: "exploration",
-        rule: "one generated script (2-3 tables with an INT key, a TEXT payload of 20-200 bytes and an INT; 60-400 statements: multi-row INSERT, point/range SELECT, COUNT(*), DELETE by range, transactions that commit or roll back, checkpoints through flush() at random points or none) is executed on a reference configuration (4 KiB pages, cache 10000, nothing evicted) and on 3-4 other configurations drawn from page size {4,8,16,32,64 KiB} x cache {24,32,64,256,10000} x pool {1,2,8} x min keys {3,4,6} x siblings {1,2,3}. Oracle (pure differential, no model): per statement the outcome class (row multiset / affected count / DDL / error) and at the end SELECT * of every table must equal the reference run; the only permitted difference is an explicit 'Buffer pool got out of memory' error with a cache below 256 pages, after which that configuration is no longer compared (counted). non-trivial = a script during which, in at least one small-cache configuration, the I/O tap saw data-file writes outside flush/close (eviction write-back); distinct = hash of the script.",
+        rule: "one generated script (2-3 tables with an INT key, a TEXT payload of 20-200 bytes and an INT; 60-400 statements: multi-row INSERT, point/range SELECT, COUNT(*), DELETE by range, UPDATE of the payload of a key range to another length (grow/shrink, inline <-> overflow), VACUUM, close + reopen with the same configuration, DROP + CREATE of a table, transactions that commit or roll back, checkpoints through flush() at random points or none) is executed on a reference configuration (4 KiB pages, cache 10000, nothing evicted) and on 3-4 other configurations drawn from page size {4,8,16,32,64 KiB} x cache {24,32,64,256,10000,65535,65536,131072} x pool {1,2,8} x min keys {3,4,6,16,32,100, capped at page size / 128: a page must hold that many cells} x siblings {1,2,3}. Oracle (pure differential, no model): per statement the outcome class (row multiset / affected count / DDL / error) and at the end SELECT * of every table must equal the reference run; the only permitted difference is an explicit 'Buffer pool got out of memory' error with a cache below 256 pages, after which that configuration is no longer compared (counted). non-trivial = a script during which, in at least one small-cache configuration, the I/O tap saw data-file writes outside flush/close (eviction write-back); distinct = hash of the script.",
         assumptions: &[
             "differential oracle: a defect that strikes identically in every configuration is not this property's violation",
             "row sizes stay below the limits of the open B+tree findings (see coverage.excluded / known.json)",
@@ -36,6 +36,11 @@ pub enum Op {
     Flush,
     /// DROP TABLE + CREATE TABLE of the same name (page release and reuse), optionally checkpointed before the first insert
     Recreate { t: u8, flush: bool },
+    /// rewrite the payload of a key range with a text of another length (grow / shrink, inline <-> overflow)
+    Update { t: u8, lo: u16, hi: u16, len: u8 },
+    Vacuum,
+    /// close and open again with the same configuration
+    Reopen,
 }
 
 #[derive(Clone, Debug, Serialize, Deserialize, Hash)]
@@ -217,6 +222,34 @@ fn run_script(s: &Script, cfg: Cfg) -> RunOut {
                     }));
                 }
             }
+            Op::Update { t, lo, hi, len } => {
+                let (lo, hi) = (lo.min(hi), lo.max(hi));
+                if !stmt(&mut db, format!("UPDATE t{} SET s = '{}' WHERE k >= {} AND k < {}", t % nt, text(*lo, *len), lo, hi.min(&(lo + 12))), &mut out) {
+                    break 'ops;
+                }
+            }
+            Op::Vacuum => {
+                let r = db.vacuum();
+                out.obs.push(("vacuum".into(), match r {
+                    Ok(()) => Obs::Ddl,
+                    Err(e) => {
+                        let t = e.text();
+                        if t.contains("Buffer pool got out of memory") {
+                            out.oom_at = Some(out.obs.len());
+                        } else if t.starts_with("PANIC") {
+                            out.panicked = Some(format!("vacuum: {t}"));
+                        }
+                        Obs::Err(t)
+                    }
+                }));
+            }
+            Op::Reopen => {
+                let r = db.reopen(cfg);
+                out.obs.push(("reopen".into(), match r {
+                    Ok(()) => Obs::Ddl,
+                    Err(e) => Obs::Err(e.text()),
+                }));
+            }
             Op::Flush => {
                 let a = axmosdb::verif::io::event_count();
                 let r = db.flush();
@@ -324,8 +357,9 @@ pub fn run_case(s: &Script) -> CaseOut {
 }
 
 fn gen_cfg() -> BoxedStrategy<Cfg> {
-    (prop_oneof![2 => Just(4096u32), 1 => Just(8192u32), 1 => Just(16384u32), 1 => Just(32768u32), 1 => Just(65536u32)], prop_oneof![3 => Just(24u32), 2 => Just(32u32), 2 => Just(64u32), 1 => Just(256u32), 1 => Just(10000u32)], prop_oneof![Just(1u8), Just(2u8), Just(8u8)], prop_oneof![Just(3u8), Just(4u8), Just(6u8)], 1u8..4)
-        .prop_map(|(page_size, cache, pool, min_keys, siblings)| Cfg { page_size, cache, pool, min_keys, siblings })
+    (prop_oneof![2 => Just(4096u32), 1 => Just(8192u32), 1 => Just(16384u32), 1 => Just(32768u32), 1 => Just(65536u32)], prop_oneof![6 => Just(24u32), 4 => Just(32u32), 4 => Just(64u32), 2 => Just(256u32), 2 => Just(10000u32), 1 => Just(65535u32), 1 => Just(65536u32), 1 => Just(131072u32)], prop_oneof![Just(1u8), Just(2u8), Just(8u8)], prop_oneof![3 => Just(3u8), 2 => Just(4u8), 2 => Just(6u8), 1 => Just(16u8), 1 => Just(32u8), 1 => Just(100u8)], 1u8..4)
+        // a page must be able to hold min_keys cells of non-zero payload (debug assertion in storage/core/buffer.rs)
+        .prop_map(|(page_size, cache, pool, min_keys, siblings)| Cfg { page_size, cache, pool, min_keys: (min_keys as u32).min(page_size / 128) as u8, siblings })
         .boxed()
 }
 
@@ -339,6 +373,9 @@ fn gen_op() -> BoxedStrategy<Op> {
         2 => (0u8..3, prop::collection::vec(0u16..600, 1..4), any::<u8>(), any::<bool>()).prop_map(|(t, keys, len, commit)| Op::Txn { t, keys, len, commit }),
         1 => Just(Op::Flush),
         1 => (0u8..3, any::<bool>()).prop_map(|(t, flush)| Op::Recreate { t, flush }),
+        3 => (0u8..3, 0u16..600, 0u16..600, any::<u8>()).prop_map(|(t, lo, hi, len)| Op::Update { t, lo, hi, len }),
+        1 => Just(Op::Vacuum),
+        1 => Just(Op::Reopen),
     ]
     .boxed()
 }
@@ -367,7 +404,7 @@ pub fn run_shard(ctx: &mut ShardCtx) {
     if ctx.shard == 0 {
         ctx.witnesses(&replay);
     }
-    let n = ctx.share(ctx.tier.pick(480, 12_000));
+    let n = ctx.share(ctx.tier.pick(1280, 24_000));
     let max_rows = ctx.limit("rows_per_table", 180) as u16;
     let flush = !ctx.excluded("admin.flush_mid_workload");
     ctx.search("script", gen_script(ctx.tier.pick(260, 420), max_rows, flush), n, &run_case);
